@@ -537,26 +537,38 @@ def _initialize_state_vars(network):
 
 			# Initialize inbound order pipeline. (Exclude external demand.)
 			for s in n.successors():
-				for l in range(s.get_attribute('order_lead_time', prod_ind) or 0):
-					n.state_vars[0].inbound_order_pipeline[s.index][prod_ind][l] = s.get_attribute('initial_orders', prod_ind) or 0
+				# Use the lead time and initial orders of the product at s that is made from prod_ind: the same choice as in
+				# NodeStateVars.__init__, which sizes the pipeline. (Nothing to initialize if s does not order prod_ind from n.)
+				if prod_ind in s.raw_materials_by_product(product='all', return_indices=True, network_BOM=True) \
+					and n.index in s.raw_material_suppliers_by_raw_material(raw_material=prod_ind, return_indices=True, network_BOM=True):
+					downstream_prod_ind = s.products_by_raw_material(prod_ind)[0]
+					for l in range(s.get_attribute('order_lead_time', downstream_prod_ind) or 0):
+						n.state_vars[0].inbound_order_pipeline[s.index][prod_ind][l] = s.get_attribute('initial_orders', downstream_prod_ind) or 0
 
 		# State variables indexed by product at predecessor nodes.
 		for rm_index in n.raw_materials_by_product('all', return_indices=True, network_BOM=True):
 			for p_index in n.raw_material_suppliers_by_raw_material(raw_material=rm_index, return_indices=True, network_BOM=True):
 				
+				# Product at this node whose lead times and initial quantities govern this raw material: the same choice as in
+				# NodeStateVars.__init__, which sizes the pipeline (the last product that uses rm_index).
+				rm_prod_ind = prod_ind
+				for pi in n.product_indices:
+					if rm_index in n.raw_materials_by_product(product=pi, return_indices=True, network_BOM=True):
+						rm_prod_ind = pi
+
 				# Initialize inbound shipment pipeline and on-order quantities.
-				for l in range(n.shipment_lead_time or 0):
-					n.state_vars[0].inbound_shipment_pipeline[p_index][rm_index][l] = n.get_attribute('initial_shipments', prod_ind) or 0
+				for l in range(n.get_attribute('shipment_lead_time', rm_prod_ind) or 0):
+					n.state_vars[0].inbound_shipment_pipeline[p_index][rm_index][l] = n.get_attribute('initial_shipments', rm_prod_ind) or 0
 				n.state_vars[0].on_order_by_predecessor[p_index][rm_index] = \
-					(n.get_attribute('initial_shipments', prod_ind) or 0) * (n.get_attribute('shipment_lead_time', prod_ind) or 0) \
-						+ (n.get_attribute('initial_orders', prod_ind) or 0) * (n.get_attribute('order_lead_time', prod_ind) or 0)
+					(n.get_attribute('initial_shipments', rm_prod_ind) or 0) * (n.get_attribute('shipment_lead_time', rm_prod_ind) or 0) \
+						+ (n.get_attribute('initial_orders', rm_prod_ind) or 0) * (n.get_attribute('order_lead_time', rm_prod_ind) or 0)
 				# Orders in transit to the external supplier have no inbound order pipeline to sit in; like new orders
 				# to the external supplier, they go into the inbound shipment pipeline (behind the initial shipments),
 				# so that the on-order quantity set above matches what will actually arrive.
 				if p_index is None:
-					for l in range(n.order_lead_time or 0):
-						n.state_vars[0].inbound_shipment_pipeline[p_index][rm_index][(n.shipment_lead_time or 0) + l] = \
-							n.get_attribute('initial_orders', prod_ind) or 0
+					for l in range(n.get_attribute('order_lead_time', rm_prod_ind) or 0):
+						n.state_vars[0].inbound_shipment_pipeline[p_index][rm_index][(n.get_attribute('shipment_lead_time', rm_prod_ind) or 0) + l] = \
+							n.get_attribute('initial_orders', rm_prod_ind) or 0
 
 				# Initialize raw material inventory. (Use a separate loop variable: this loop runs inside the loops
 				# over rm_index and p_index and must not change rm_index for the remaining suppliers of this raw material.)
